@@ -126,7 +126,7 @@ func knownMatch(c *drive.Case, out *drive.Outcome) string {
 	f := c.Prog.Features()
 	if rec.Known("C05-F1") && f.IncNested {
 		switch out.Symptom {
-		case "missing-request", "not-complete", "extra-request", "flows", "ends":
+		case "missing-request", "not-complete", "extra-request", "flows", "ends", "errors":
 			return "C05-F1"
 		}
 	}
